@@ -173,6 +173,11 @@ def _remove_matched_tasks(
     not_removed: Set[TaskTokens] = set()
     to_kill: List[TaskProxy] = []
 
+    # Write any pending DB operations first: remove_task_from_flows() reads
+    # the committed rows (e.g. the rows of a task spawned by a command
+    # handled just before this one are still queued for insertion).
+    schd.workflow_db_mgr.process_queued_ops()
+
     for id_ in ids:
         itask = schd.pool._get_task_by_id(id_.relative_id)
 
@@ -250,6 +255,12 @@ def _remove_matched_tasks(
         )
         if db_removed_fnums:
             removed.setdefault(id_, set()).update(db_removed_fnums)
+        # Erase the history now: anything that tries to respawn the task
+        # before the next DB commit (e.g. the parentless successor of the
+        # next matched task, or a message processed later in this main loop)
+        # must not find the stale history, and the queued update must not
+        # hit the rows of an instance spawned after this point.
+        schd.workflow_db_mgr.process_queued_ops()
 
         if id_ not in removed:
             not_removed.add(id_)
